@@ -32,6 +32,11 @@ CLAIMS = {
    text="Decides that no path of the expiry scan or of record ingestion leaves a held flow without a queue entry or a queue entry without a flow: every popped item is re-pushed through container/heap or its flow deleted on all paths (this is the rule that found the two stranding defects); new records are pushed before they reach the map and linked both ways; deletions only after the pop; existing flows always re-scheduled through Update->heap.Fix with the unchanged active and a fresh inactive deadline; Swap/Push/Pop keep index, Less/minExpireTime order by the earlier deadline; nothing is popped while both deadlines are in the future; delete is guarded by the inactive deadline or exhausted retries. It decides the per-step transition, not whole histories or wall-clock timing.",
    note="Trusted: container/heap given a correct heap.Interface; time.Time comparisons.",
    ref="DESIGN.md §5 C06"),
+ "C03": dict(
+   technique="dominance of consuming reads by relational branch facts (Len() >= n), loop-progress path rule, error-result use analysis, nil-guard dominance, call-graph reachability of panics, bounded-size normal forms for allocations, def-use flow of the decoded set length (go/ssa)",
+   text="Decides structural necessary conditions of total, exact decoding for EVERY byte string (what no finite sample of packets can): no Next(n) without a dominating proof that n bytes remain; the record loop cannot iterate without progress; no decode-path error is dropped; the element decoder never reads a nil value; no explicit panic reachable from decodePacket; allocation sizes bounded by <=16-bit wire values/configuration; the wire set length bounds the set body. These rules found five genuine defects (now fixed). Agreement of decoded values with a reference parser and wall-clock promptness are not decided.",
+   note="Trusted: bytes.Buffer/bufio/encoding/binary; width agreement decoder<->template is C15's obligation.",
+   ref="DESIGN.md §5 C03, §6 #1-#5"),
 }
 NOT_YET = "rules designed (DESIGN.md §5) but not built yet in this round; no claim is made until the check exists"
 props=[json.loads(l) for l in open('/verif/properties.jsonl')]
